@@ -234,10 +234,13 @@ def mon_c08_outside_f41(run, world):
 
 
 def outside_rows_model(world):
-    """worlds whose traces the rows model does not describe: time values not in microseconds (known finding F41) and
-    Clockwork worlds (loaded profiles hold resources that no task requested: outside the machine)"""
-    import simgen
-    return bool({"non_us_times"} & simgen.signature(world)) or world["flags"].get("scheduler") == "Clockwork"
+    """worlds whose traces the rows model does not describe: placement times / runtimes that are not in microseconds reach
+    the rows as raw magnitudes (known finding F41), and Clockwork worlds (loaded profiles hold resources that no task
+    requested: outside the machine)"""
+    fz = world.get("fuzz")
+    # (worlds whose only non-microsecond values are task DEADLINES are inside: every modelled row prints deadlines converted)
+    return bool(fz and fz.get("coarse_units")) or bool(world.get("direct", {}).get("coarse_runtimes")) \
+        or world["flags"].get("scheduler") == "Clockwork"
 
 
 def rows_tie(ctx, worlds, runs):
